@@ -32,7 +32,8 @@ RULE_KINDS = {
     "rfc1982/base-is-inert": "structural",
     "rfc1982/fields-immutable": "structural",
     "rfc1982/width-uniform": "structural",
-    "rfc1982/eq-on-ring-value": "structural",       # the two sides of __eq__'s comparison derive from _number by identity (not through hash/float/str)
+    "rfc1982/eq-on-ring-value": "structural",
+    "rfc1982/addend-unreduced-at-range-check": "structural",   # no conversion step on the way into __add__ constructs a SerialNumber from the raw operand       # the two sides of __eq__'s comparison derive from _number by identity (not through hash/float/str)
     # decided by evaluating ALL pairs of widths 1..5; complete for every width when rfc1982/width-uniform holds (see its detail)
     "rfc1982/compare-table": "finite-exhaustive",
     "rfc1982/add-": "finite-exhaustive",
@@ -1039,6 +1040,46 @@ def check(ctx):
             ctx.check(not bad, rule, f"{Q}.__add__ | {region}", (bad[0] + f" ({len(bad)} of {len(outcomes)} evaluated cases disagree)") if bad else "",
                       detail=f"{len(outcomes)} cases evaluated")
 
+    # ---- the addend reaches the range check unreduced ---------------------------------------------------------------------------------------------
+    with ctx.section("operand conversion"):
+        # __add__ compares the addend's _number with _maxAdd; the constructor reduces modulo 2^bits.  A conversion step (any method __add__ hands its
+        # operand to, e.g. _convertOther) that BUILDS a SerialNumber from the raw operand therefore hides out-of-range addends from the check.
+        addm = ms.get("__add__")
+        funnel = []          # (method, name of the parameter that receives the raw operand)
+        if addm is not None and len(addm.args.args) > 1:
+            todo_f, seen_f = [(addm, addm.args.args[1].arg)], []
+            for d in addm.decorator_list:      # a private decorator's wrapper receives the raw operand first
+                dn = d.func if isinstance(d, ast.Call) else d
+                dec = mod.find(dn.id) if isinstance(dn, ast.Name) else None
+                if isinstance(dec, ast.FunctionDef):
+                    for w_ in ast.walk(dec):
+                        if isinstance(w_, ast.FunctionDef) and w_ is not dec and len(w_.args.args) > 1:
+                            todo_f.append((w_, w_.args.args[1].arg))
+            while todo_f:
+                fn, raw = todo_f.pop()
+                if any(fn is x and raw == r for x, r in seen_f):
+                    continue
+                seen_f.append((fn, raw))
+                for c in ast.walk(fn):
+                    if isinstance(c, ast.Call) and isinstance(c.func, ast.Attribute) and isinstance(c.func.value, ast.Name) and c.func.value.id in ("self", cls.name) and c.func.attr in ms \
+                            and c.func.attr not in _OPS and c.func.attr not in ("__add__", "__init__"):
+                        callee = ms[c.func.attr]
+                        cargs = c.args[1:] if c.func.value.id == cls.name else c.args
+                        for pos, a_ in enumerate(cargs):
+                            if isinstance(a_, ast.Name) and a_.id == raw and pos + 1 < len(callee.args.args):
+                                funnel.append((callee, callee.args.args[pos + 1].arg))
+                                todo_f.append((callee, callee.args.args[pos + 1].arg))
+        judged_conv = False
+        for fn, raw in funnel:
+            builds = [c for c in ast.walk(fn) if isinstance(c, ast.Call) and (src(c.func) in (cls.name, "type(self)", "self.__class__", "cls")) and c.args
+                      and any(isinstance(x, ast.Name) and x.id == raw for x in ast.walk(c.args[0]))]
+            judged_conv = True
+            ctx.check(not builds, "rfc1982/addend-unreduced-at-range-check", f"{Q}.{fn.name} | <operand conversion>",
+                      (f"`{src(builds[0])}` builds a SerialNumber from the raw operand: the constructor keeps only the residue modulo 2^bits, so __add__'s comparison with _maxAdd "
+                       "accepts addends such as 2^bits + 1 or negative ones (RFC 1982 3.1 defines addition only for 0 <= n <= 2^(bits-1)-1)") if builds else "")
+        if not judged_conv:
+            ctx.note("rfc1982/addend-unreduced-at-range-check: __add__ hands its operand to no conversion method; clause left to rfc1982/add-plain-int (bounded)")
+
     # ---- plain-integer addends: refused, or - where an implementation accepts them - only inside 0 .. 2^(bits-1)-1 and with the right sum ---------
     with ctx.section("plain integer addends"):
         bad_int: List[str] = []
@@ -1095,6 +1136,10 @@ def check(ctx):
 # --------------------------------------------------------------------------------------------------
 
 MUTANTS = [
+    Mutant("convert-other-wraps-anything-with-an-int-value", RFC, "        if not isinstance(other, SerialNumber):\n            raise TypeError(f\"cannot compare or combine {self!r} and {other!r}\")\n",
+           "        if not isinstance(other, SerialNumber):\n            other = SerialNumber(int(other), self._serialBits)\n", expect_rule="rfc1982/add-plain-int"),
+    Mutant("convert-other-builds-from-integers-by-type", RFC, "        if not isinstance(other, SerialNumber):\n", "        if isinstance(other, (bool, int)):\n            other = type(self)(other, serialBits=self._serialBits)\n        if not isinstance(other, SerialNumber):\n",
+           expect_rule="rfc1982/addend-unreduced-at-range-check"),
     Mutant("eq-decorator-lets-incompatible-operands-through", RFC, "    def __eq__(self, other: object) -> bool:\n        \"\"\"\n        Allow rich equality comparison with another L{SerialNumber} instance.\n        \"\"\"\n        try:\n            other = self._convertOther(other)\n        except TypeError:\n            return NotImplemented\n        return other._number == self._number\n", "    @_checked\n    def __eq__(self, other):\n        return other._number == self._number\n", more=[(RFC, "class SerialNumber(FancyStrMixin):\n", "def _checked(method):\n    def wrapper(self, other):\n        try:\n            peer = self._convertOther(other)\n        except TypeError:\n            peer = other\n        return method(self, peer)\n\n    return wrapper\n\n\nclass SerialNumber(FancyStrMixin):\n")], expect_rule="rfc1982/refuses-other-width"),
     Mutant("lt-operator-functions-swapped", RFC, "        return (\n            self._number < other._number\n            and (other._number - self._number) < self._halfRing\n        ) or (\n            self._number > other._number\n            and (self._number - other._number) > self._halfRing\n        )\n", "        return self._ordered(other, operator.gt, operator.lt)\n",
            more=[(RFC, "import calendar\n", "import calendar\nimport operator\n"),
@@ -1136,6 +1181,7 @@ MUTANTS = [
 ]
 
 SILENT = [
+    Silent("convert-other-type-test-on-builtins-first", RFC, "        if not isinstance(other, SerialNumber):\n", "        if isinstance(other, (int, float, str)) or not isinstance(other, SerialNumber):\n"),
     # the operand check in a private decorator; the half-ring test through comparison functions handed over as values
     Silent("eq-operand-check-in-a-private-decorator", RFC, "    def __eq__(self, other: object) -> bool:\n        \"\"\"\n        Allow rich equality comparison with another L{SerialNumber} instance.\n        \"\"\"\n        try:\n            other = self._convertOther(other)\n        except TypeError:\n            return NotImplemented\n        return other._number == self._number\n", "    @_checked\n    def __eq__(self, other):\n        return other._number == self._number\n", more=[(RFC, "class SerialNumber(FancyStrMixin):\n", "def _checked(method):\n    def wrapper(self, other):\n        try:\n            peer = self._convertOther(other)\n        except TypeError:\n            return NotImplemented\n        return method(self, peer)\n\n    return wrapper\n\n\nclass SerialNumber(FancyStrMixin):\n")]),
     Silent("lt-through-operator-functions", RFC, "        return (\n            self._number < other._number\n            and (other._number - self._number) < self._halfRing\n        ) or (\n            self._number > other._number\n            and (self._number - other._number) > self._halfRing\n        )\n", "        return self._ordered(other, operator.lt, operator.gt)\n",
